@@ -8,7 +8,7 @@ import PyxModel.Oal.LexGen
          i.e. the token stream modulo `normTok`
 -/
 namespace Pyx.Driver.C08
-open Pyx Pyx.Sexp Pyx.Oal
+open Pyx Pyx.Sexp Pyx.OalLex
 
 def one (text : String) : Sexp :=
   list ((lex text.toList).map fun t =>
